@@ -527,6 +527,12 @@ pub fn check_history(cfg: &Config, init: S4, h: &[Op], prop: Prop, rank: u64, ac
     apply(&mut real, last);
     acc.ops += 1;
     let post = observe(&real);
+    // Construction does not evaluate the initial state's timeline (outside the statements): as long as the
+    // history consists of no-op set_state(initial state) calls only, nothing has been evaluated yet and there is
+    // nothing to compare. The first advance - also one of zero length - puts the values on the timeline.
+    if prop == Prop::C05 && h.iter().all(|op| matches!(op, Op::Set(s) if *s == init)) {
+        return (post, model);
+    }
     if acc.outcomes.len() < 8192 {
         let b = post.values.bits();
         acc.outcomes.insert(b[0] ^ (b[1] << 20) ^ (b[2] << 7) ^ (post.state as u64) << 60 ^ (post.ended as u64) << 59);
@@ -1547,7 +1553,9 @@ pub fn run(run: Run, prop: Prop) -> ! {
     // The last shape (negative delay) is never the initial state's timeline (the animator does not evaluate
     // at construction, which is outside the statements) and is left out of the C04 no-jump runs entirely
     // (entering a timeline that is already half-way through legitimately moves the values at once).
-    let npx = pool(0).len() - 1;
+    // (C05 states the values after every operation, whatever the state before the first one was: there the
+    // negative-delay shape is an initial timeline too - the first advance, even of zero length, puts the values on it)
+    let npx = pool(0).len() - if prop == Prop::C05 { 0 } else { 1 };
     let np = pool(0).len() - if prop == Prop::C04 { 1 } else { 0 };
     for xi in 0..npx {
         for yi in 0..np {
